@@ -280,6 +280,30 @@ def completePen (p cur : Pen) : Pen :=
     italic := orElse p.italic cur.italic, reverse := orElse p.reverse cur.reverse, strike := orElse p.strike cur.strike,
     altfont := orElse p.altfont cur.altfont, blink := orElse p.blink cur.blink, sizepos := orElse p.sizepos cur.sizepos }
 
+/-- What a pen makes a cell look like: the value every getter of src/pen.c returns - colour index and RGB8 value (if
+    the pen has one) of foreground and background, the flags and numbers with absent = default.  Two pens with the
+    same look render alike; a pen *with* an RGB8 value on a colour never looks like one without, whatever the value. -/
+structure PenLook where
+  fg : Int
+  fgRgb : Option RGB
+  bg : Int
+  bgRgb : Option RGB
+  bold : Bool
+  under : Int
+  italic : Bool
+  reverse : Bool
+  strike : Bool
+  altfont : Int
+  blink : Bool
+  sizepos : Int
+deriving DecidableEq, Repr
+
+def penLook (p : Pen) : PenLook :=
+  { fg := Pen.getColour p.fg, fgRgb := Pen.getRgb p.fg, bg := Pen.getColour p.bg, bgRgb := Pen.getRgb p.bg
+    bold := Pen.getBool p.bold, under := Pen.getInt p.under, italic := Pen.getBool p.italic
+    reverse := Pen.getBool p.reverse, strike := Pen.getBool p.strike, altfont := Pen.getInt p.altfont
+    blink := Pen.getBool p.blink, sizepos := Pen.getInt p.sizepos }
+
 /-- Line segments merge into a line cell already there (the pen is replaced unless already equivalent). -/
 def mergeLine (pen : Pen) (bits : Nat) (old : Content) : Content :=
   match old with
